@@ -10,6 +10,10 @@ import Driver.Util
      -> ok flen=<len of data file> pad0=<1|0> data=<hex of the data region> tail=<bytes after it>
            shape=[..] vals=<loaded elements, logical C order, same syntax>
         | scaling | ERR:<kind>
+  rtd <class> <endian> <header dtype before the save> <dtype= override> <override byte order = | < | >> <offset | _>
+      <shape> <in> <vals>     save with `to_file_map(dtype=override)`; -> as rt, plus ` after=<header dtype after><endian>`
+  rs <class> <endian> <out dtype> <offset | _> <shape> <in> <vals>
+       save, load, save the LOADED image over its own file (`resave`, data materialised first) -> as rt, on the final file
   sn <base|slope> <in> <out> <size> <range: i:<mn>:<mx> | fz | fn | fo>  -> false | true | ERR:WriterError
   codec <name as ,-separated code points>                           -> raw | gz | bz2 | zst
   rd <class> <endian> <out dtype> <shape> <data file length>   -> ok <shape> | ERR:OSError
@@ -54,6 +58,19 @@ def parseIntDType? (s : String) : Option (Bool × Nat) :=
 def arrOfC (shape : List Nat) (xs : Array Elem) : List Nat → Elem :=
   fun i => xs.getD (ravelC shape i) []
 
+def dtypeNames : List String :=
+  ["u1", "u2", "u4", "u8", "i1", "i2", "i4", "i8", "f2", "f4", "f8", "f16", "c8", "c16", "c32", "rgb", "rgba"]
+
+def nameOfDType (t : DType) : String :=
+  (dtypeNames.find? (fun n => dtypeOfName n == some t)).getD "?"
+
+def endianChar : Endian → String
+  | .little => "<" | .big => ">"
+
+def parseSpell? (s : String) : Option OrderSpell :=
+  if s = "=" then some .native else if s = "<" then some .little else if s = ">" then some .big else none
+
+/-- `e`, `t`: byte order and dtype the READER takes from the written header -/
 def report (file : List Nat) (hlen offset : Nat) (e : Endian) (t : DType) (shape : List Nat) : String :=
   let n := shape.prod * t.itemsize
   match readData file offset e t.cw t.k shape with
@@ -66,8 +83,10 @@ def report (file : List Nat) (hlen offset : Nat) (e : Endian) (t : DType) (shape
       let ea := els.toArray
       " shape=" ++ showList sh ++ " vals=" ++ showElems ((enumC sh).map (loadedAtA sh ea))
 
+/-- `e`, `t`: what the writer is given; `re`, `rt`: what the reader finds in the written header;
+    `again`: the loaded image is saved over its own file before the report -/
 def runRt (cls : String) (e : Endian) (t : DType) (offset : Option Nat) (shape : List Nat)
-    (xs : List Elem) : String :=
+    (xs : List Elem) (re : Endian := e) (rt : DType := t) (again : Bool := false) : String :=
   match lookupClass cls with
   | none => "bad-op"
   | some (layout, hlen, defOff, ftrLen, _, _) =>
@@ -77,9 +96,12 @@ def runRt (cls : String) (e : Endian) (t : DType) (offset : Option Nat) (shape :
       if e ≠ .big ∨ offset.isSome then "bad-op"
       else
         let ishape := mghImageShape shape
-        match mghWrite (List.replicate hlen 1) (List.replicate ftrLen 2) t.cw ishape (arrOfC ishape xa) with
+        let w := if again then mghResave (List.replicate hlen 1) (List.replicate ftrLen 2) t.cw t.k ishape
+                                 (arrOfC ishape xa) true
+                 else mghWrite (List.replicate hlen 1) (List.replicate ftrLen 2) t.cw ishape (arrOfC ishape xa)
+        match w with
         | .error er => errName er
-        | .ok file => report file hlen mghDataOffset .big t ishape
+        | .ok file => report file hlen mghDataOffset .big rt ishape
     else
       -- offset 0 in a single-file header means "use the default" (nifti1.py get_data_offset users)
       let off := match offset with
@@ -87,36 +109,62 @@ def runRt (cls : String) (e : Endian) (t : DType) (offset : Option Nat) (shape :
         | some o => if layout = "single" ∧ o = 0 then defOff else o
       if hlen > off then "ERR:HeaderDataError"
       else
-        let file := writeFile (List.replicate hlen 1) off e t.cw shape (arrOfC shape xa)
-        report file hlen off e t shape
+        if again then
+          match resave (List.replicate hlen 1) off e t.cw t.k shape (arrOfC shape xa) true with
+          | .error er => errName er
+          | .ok file => report file hlen off re rt shape
+        else
+          let file := writeFile (List.replicate hlen 1) off e t.cw shape (arrOfC shape xa)
+          report file hlen off re rt shape
+
+/-- the save of `vals` (already-cast elements `raw`, or integers the model casts after taking the scaling
+    decision) with the writer given `(t, e)` and the reader `(rt, re)` -/
+def rtCore (cls : String) (e : Endian) (t : DType) (off : Option Int) (shape : List Nat) (inT vals : String)
+    (re : Endian) (rt : DType) (again : Bool) : String :=
+  match off with
+  | some (.negSucc _) => "bad-op"
+  | _ =>
+  let off := off.map Int.toNat
+  if inT = "raw" then
+    match parseElems? vals with
+    | some xs => if xs.all (fun x => x.length == t.k) then runRt cls e t off shape xs re rt again else "bad-op"
+    | none => "bad-op"
+  else
+    match parseIntDType? inT, parseIntList? vals, lookupClass cls with
+    | some (aS, aw), some vs, some (layout, _, _, _, hasSlope, _) =>
+        if !t.isInt then "bad-op" else
+        let a : DType := ⟨if aS then .sint else .uint, aw, 1⟩
+        -- MGH calls array_to_file directly (no scaling_needed); same in-range domain
+        let need := if layout = "mgh" then scalingNeededBase a t vs.length (intRange vs)
+                    else if hasSlope then scalingNeededSlope a t vs.length (intRange vs)
+                    else scalingNeededBase a t vs.length (intRange vs)
+        match need with
+        | .error er => errName er
+        | .ok true => "scaling"
+        | .ok false => runRt cls e t off shape (vs.map (fun v => [toBits t.cw v])) re rt again
+    | _, _, _ => "bad-op"
 
 def handle : List String → String
   | ["rt", cls, e, out, off, shape, inT, vals] =>
       match parseEndian? e, dtypeOfName out, parseOptInt? off, parseNatList? shape with
-      | some e, some t, some off, some shape =>
-          match off with
-          | some (.negSucc _) => "bad-op"
-          | _ =>
-          let off := off.map Int.toNat
-          if inT = "raw" then
-            match parseElems? vals with
-            | some xs => if xs.all (fun x => x.length == t.k) then runRt cls e t off shape xs else "bad-op"
-            | none => "bad-op"
-          else
-            match parseIntDType? inT, parseIntList? vals, lookupClass cls with
-            | some (aS, aw), some vs, some (layout, _, _, _, hasSlope, _) =>
-                if !t.isInt then "bad-op" else
-                let a : DType := ⟨if aS then .sint else .uint, aw, 1⟩
-                -- MGH calls array_to_file directly (no scaling_needed); same in-range domain
-                let need := if layout = "mgh" then scalingNeededBase a t vs.length (intRange vs)
-                            else if hasSlope then scalingNeededSlope a t vs.length (intRange vs)
-                            else scalingNeededBase a t vs.length (intRange vs)
-                match need with
-                | .error er => errName er
-                | .ok true => "scaling"
-                | .ok false => runRt cls e t off shape (vs.map (fun v => [toBits t.cw v]))
-            | _, _, _ => "bad-op"
+      | some e, some t, some off, some shape => rtCore cls e t off shape inT vals e t false
       | _, _, _, _ => "bad-op"
+  | ["rs", cls, e, out, off, shape, inT, vals] =>
+      match parseEndian? e, dtypeOfName out, parseOptInt? off, parseNatList? shape with
+      | some e, some t, some off, some shape => rtCore cls e t off shape inT vals e t true
+      | _, _, _, _ => "bad-op"
+  | ["rtd", cls, e, hdr0, ovr, spell, off, shape, inT, vals] =>
+      match parseEndian? e, dtypeOfName hdr0, dtypeOfName ovr, parseSpell? spell, parseOptInt? off,
+            parseNatList? shape, lookupClass cls with
+      | some e, some t0, some t, some sp, some off, some shape, some (layout, _, _, _, _, _) =>
+          if layout = "mgh" then "bad-op"       -- MGHImage.to_file_map takes no `dtype=`
+          else
+            let plan := saveDType ⟨e, t0⟩ (some (t, sp))
+            let r := rtCore cls plan.1.2 plan.1.1 off shape inT vals plan.2.1.endian plan.2.1.dtype false
+            if r.startsWith "ok " then
+              r ++ " after=" ++ nameOfDType plan.2.2.dtype ++ endianChar plan.2.2.endian
+            else r
+      | _, _, _, _, _, _, _ => "bad-op"
   | ["sn", wr, a, o, size, rng] =>
       let r : Option Range :=
         if rng = "fz" then some .floatZero else if rng = "fn" then some .floatNone
